@@ -208,7 +208,7 @@ class History:
 
     def __init__(self, desc):
         self.desc = desc
-        self.world = desc["world"]
+        self.world = dict(desc["world"], _versions={})   # (shallow copy: code versions are history state)
         shims.reset_node_table()
         self.epoch = float(desc.get("epoch", _EPOCH))
         self.scratch = None
@@ -285,7 +285,7 @@ def _run_op(hist, op, idx, *, tape=None, uberjob_kwargs=None, client_wrap=None, 
 
     desc = hist.desc
     world = hist.world
-    sc = desc["sched"]
+    sc = op.get("sched") or desc["sched"]   # an operation may bring its own schedule parameters
     cfg = op.get("cfg", {})
     faults = op.get("faults", {})
     rec = OpRecord()
@@ -434,6 +434,14 @@ def apply_op(hist, op, idx, **kw):
         hist.disk.delete(op["store"])
     elif k == "advance":
         hist.disk.now += op["seconds"]
+    elif k == "bump":
+        # the code of one stored call changes; as documented, the user deletes its stored value so that it
+        # (and everything downstream) is rebuilt
+        nid = op["node"]
+        hist.world["_versions"][nid] = hist.world["_versions"].get(nid, 0) + 1
+        st = [n.get("store") for n in hist.world["nodes"] if n["id"] == nid][0]
+        if st:
+            hist.disk.delete(st)
     elif k == "retime":
         # modified times moved to given instants (as os.utime / touch would do), contents unchanged
         for name, off in op["offsets"].items():
